@@ -49,10 +49,14 @@ struct Machine {
     BareCore core;
     std::vector<u32> dirty; // words written since the last clean()
 
-    Machine() {
+    bool prog_pattern; // program area filled with ProgPattern instead of zeros (nop)
+    u16 pristine(u32 a) const {
+        return a < kDataBase ? (prog_pattern ? ProgPattern(a) : 0) : DataPattern(a - kDataBase);
+    }
+    explicit Machine(bool prog_pattern_ = false) : prog_pattern(prog_pattern_) {
         MemLog::Install();
         for (u32 a = 0; a < 0x40000; ++a)
-            raw_write(a, a < kDataBase ? 0 : DataPattern(a - kDataBase));
+            raw_write(a, pristine(a));
     }
     u8* raw() { return core.shared_memory.raw; }
     u16 raw_read(u32 a) { return (u16)(raw()[a * 2] | (raw()[a * 2 + 1] << 8)); }
@@ -64,7 +68,7 @@ struct Machine {
     void clean() {
         for (u32 a : dirty)
             if (a < 0x40000)
-                raw_write(a, a < kDataBase ? 0 : DataPattern(a - kDataBase));
+                raw_write(a, pristine(a));
         dirty.clear();
     }
     void prog(u32 addr, u16 w) {
